@@ -63,12 +63,12 @@ func init() {
 
 func c17count(tier string) int {
 	if tier == "thorough" {
-		return 407
+		return 408
 	}
-	return 55
+	return 60
 }
 
-var c17kinds = []string{"prog", "ebg", "prog", "bnd", "prog", "catch", "prog", "dobj", "prog", "loc", "cond"}
+var c17kinds = []string{"prog", "ebg", "prog", "bnd", "prog", "catch", "prog", "dobj", "prog", "loc", "cond", "merge"}
 
 func c17raceBuild() bool {
 	if bi, ok := debug.ReadBuildInfo(); ok {
@@ -489,6 +489,8 @@ func c17runCase(out *rec.Out, idx int, rng *rec.Rng, tier string, stats map[stri
 		c17loc(out, rng, stats, cfg)
 	case "cond":
 		c17cond(out, rng, stats, cfg)
+	case "merge":
+		c17merge(out, rng, stats, cfg)
 	}
 }
 
@@ -1327,4 +1329,89 @@ func c17cond(out *rec.Out, rng *rec.Rng, stats map[string]int, cfg c17cfg) {
 	}
 	stats["cond_instances"] += ninst
 	stats["cond_tokens_evaluating_together"] += ninst * n
+}
+
+// ---------------------------------------------------------------- merge: several tokens leave ONE node over ONE flow at one instant
+
+// c17merge: a parallel fork whose n branches all run straight into one task M (uncontrolled merge: n activations of M),
+// M -> catch event C (signal) -> task N -> end. All n requests of M are answered at one instant from n goroutines, so n
+// tokens leave M over the same sequence flow together; ONE signal then releases the n tokens waiting at C together; the n
+// requests of N are answered together. Whatever a node, a sequence flow or the wiring keeps is touched by all of them at once.
+func c17merge(out *rec.Out, rng *rec.Rng, stats map[string]int, cfg c17cfg) {
+	g := eng.NewGraph()
+	n := 3 + rng.Intn(3)
+	st := g.Add("startEvent", "start", "")
+	f := g.Add("parallelGateway", "F", "")
+	m := g.Add("task", "M", "")
+	c := g.Add("intermediateCatchEvent", "C", "")
+	c.Defs = []eng.EventDef{{Kind: "signal", Name: "go"}}
+	nn := g.Add("task", "N", "")
+	en := g.Add("endEvent", "end", "")
+	g.Connect(st, f, nil)
+	for i := 0; i < n; i++ {
+		g.Connect(f, m, nil)
+	}
+	g.Connect(m, c, nil)
+	g.Connect(c, nn, nil)
+	g.Connect(nn, en, nil)
+	in, defs, err := eng.Start(g.XML(), map[string]any{"v0": 0})
+	if err != nil {
+		out.Line("harness-error %v", err)
+		return
+	}
+	for _, l := range eng.ProgLines(&(*defs.Processes())[0], g.CondRPN) {
+		out.Line("prog %s", l)
+	}
+	s := c17newSession(in, cfg, []string{"v0"})
+	together := func(node string) int {
+		if !in.Quiesce(6 * time.Second) {
+			in.Note("c17 noquiesce")
+			return 0
+		}
+		gate := make(chan struct{})
+		var wg sync.WaitGroup
+		k := 0
+		for _, q := range in.Pending() {
+			if q.Node != node {
+				continue
+			}
+			q.Done = true
+			k++
+			in.Note("c17 op answer %s %d", q.Node, q.Occ)
+			wg.Add(1)
+			q := q
+			go func() {
+				defer wg.Done()
+				<-gate
+				if !eng.DoWithDeadline(q.Trace, 1500*time.Millisecond) {
+					s.cnt.blockedDo.Add(1)
+					s.in.Note("c17 blocked do %s %d", q.Node, q.Occ)
+				}
+			}()
+			s.cnt.answers.Add(1)
+			s.cnt.concAnswers.Add(1)
+		}
+		bg := s.burst(rng)
+		s.cnt.batches++
+		close(gate)
+		c17waitWG(&wg, 6*time.Second)
+		c17waitWG(bg, 5*time.Second)
+		return k
+	}
+	k1 := together("M")
+	if in.Quiesce(6 * time.Second) {
+		in.Note("c17 op deliver go")
+		s.deliver(event.NewSignalEvent("go"), "go")
+		s.cnt.deliveries.Add(1)
+	}
+	k2 := together("N")
+	complete := in.WaitComplete(1500 * time.Millisecond)
+	in.Quiesce(2 * time.Second)
+	c17dump(out, in)
+	if k1 != n || k2 != n || !complete {
+		out.Line("c17 mergecount branches=%d m=%d n=%d complete=%d", n, k1, k2, rec.B(complete))
+	}
+	s.finish(out, stats, complete)
+	in.Stop(2 * time.Second)
+	stats["merge_tokens_leaving_one_node_together"] += n
 }
